@@ -139,6 +139,14 @@ CLAIMED = {
         technique="static analysis: normalised loop descriptors, interval entailment from must-facts with a callee effect summary, "
         "must-pass-through pairing",
     ),
+    "C20": dict(
+        text="Static analysis of the current source. Decides for ML_norm: in every apply_*(data, factors, apply) the two branches on `apply` "
+        "update the same element with *= resp. /= by the identical factor expression, and for efficiencies the factor is the product of the "
+        "first and the second detector's entry; make_fan_data_remove_gaps_help and set_fan_data_add_gaps_help are duals over one index map "
+        "(identical loops, get_det_pair_for_bin call, virtual-crystal gap predicates and index compaction; transfer reversed, symmetric fan "
+        "entry written). NOT decided: fixed point and KL descent of the ML iterations (numerical).",
+        technique="static analysis: sibling/dual agreement of branches and of paired functions over canonical keys with role renaming",
+    ),
 }
 
 NOT_APPLICABLE = {
